@@ -48,6 +48,12 @@ func (fc *flowChecker) analyse(t *rapid.T, c *flowCase) []*core.TaintOutcome {
 	var outs []*core.TaintOutcome
 	for i := range fc.variants {
 		v := fc.variant(i)
+		if v.Opts.FieldSensitive && excluded()["variant:fieldsens"] {
+			// known finding: the field-sensitive mode drops flows / does not terminate in reasonable time
+			fc.rec.Count("excluded_by_known_finding", 1)
+			outs = append(outs, &core.TaintOutcome{Pairs: map[core.Pair]bool{}, Err: fmt.Errorf("excluded")})
+			continue
+		}
 		budget := analysisBudget()
 		if v.Opts.FieldSensitive {
 			budget /= 4
